@@ -670,7 +670,9 @@ func (s *ClientSession) notifyDoResultSucc() {
 	}
 
 	//pull有可能还需要小包发送，不使用缓存
-	if s.sessionStat.BaseType() == base.SessionBaseTypePushStr {
+	// 注意，WriteBufSize为0表示不使用缓冲，此时不能调用ModWriteBufSize(0)，
+	// 因为bufio对大小为0的缓冲会使用默认的4096字节，导致数据滞留在缓冲中发不出去
+	if s.sessionStat.BaseType() == base.SessionBaseTypePushStr && s.option.WriteBufSize > 0 {
 		s.conn.ModWriteBufSize(s.option.WriteBufSize)
 	}
 
